@@ -593,6 +593,10 @@ def array_stream(ctx, deep=False, model=True):
         if model:
             ls = model_lines(case, arr)
             groups = [ls]
+            if len(s_in) >= 2 and status == 'err:offset':
+                # `resizeND` itself on the refusal (C16.nd_offset_refused)
+                groups.append([l.replace('resize ', 'resize-direct ', 1) for l in ls])
+                ctx.hit('nd/resizeND-direct/offset-refused')
             if len(s_in) >= 2 and status == 'ok':
                 # the composition the n-d transposition theorem is stated for (last axis
                 # first), and for small cases the model's own `resizeND` without tabulation
@@ -1860,6 +1864,7 @@ def run(ctx):
     expected = ['{}/{}/{}'.format(m, d, c) for m in MODES for d in DIRS
                 for c in ('grow', 'shrink', 'same')]
     expected += ['nd/refAxes', 'nd/resizeND-direct/forward', 'nd/resizeND-direct/adjoint',
+                 'nd/resizeND-direct/offset-refused',
                  'array/dtype=uint8', 'array/dtype=complex64', 'array/out-of-other-dtype',
                  'array/non-contiguous']
     expected += ['reference/' + m for m in MODES] + ['discr-model', 'opadj-model', 'opadjnd-model', 'offsp-model',
